@@ -1,0 +1,12 @@
+//go:build verif
+
+// Contracts for gvc (/verif). Comment-only: this file adds no declarations.
+
+package md
+
+// C17 sweep: zero-annotation panic-freedom obligations for the module's functions,
+// for every argument value.
+//@ func showOpts.SetDefaultOptions
+//@   props C17
+//@ func show
+//@   props C17
